@@ -198,6 +198,8 @@ func (c *sevValidateCommand) runE(cmd *cobra.Command, args []string) error {
 				BasePolicy:       s.basePolicy,
 				RootsOfTrust:     rot,
 				TestonlyForceGCS: c.testonlyForceGCS,
+				// The measurement must be the one endorsed for --launch_vmsas when it is given.
+				ExpectedLaunchVmsas: s.launchVmsas,
 			})
 	}
 
